@@ -385,7 +385,7 @@ Lemma step_meets_spec h c : wf_hist h = true ->
   end.
 Proof.
   intros W. pose proof (run_inv h W) as I.
-  destruct c as [pid|o|a b|a b|o s|o|o| |]; cbn [spec_call]; auto.
+  destruct c as [pid|pid|o|o|o|o|a b|a b|o s|o|o| |]; cbn [spec_call]; auto.
   - (* New *)
     rewrite nonset_effects by (intros; discriminate). left. f_equal.
     rewrite outcome_call. cbn [mcall]. unfold new_obj.
